@@ -162,6 +162,8 @@ def run(chk):
         chk.extra['worst_saved_terms_residual'] = float('%.3e' % worst_terms)
         chk.samples = [scs[0].lines[:4] + ['...'], scs[-1].lines[2][:200]]
         if not chk.violations:
+            parameter_standards(chk, exe, rng, 2 if chk.tier == 'quick' else 20)
+        if not chk.violations:
             smooth_offgrid(chk, exe, rng, 1 if chk.tier == 'quick' else 8)
         if not chk.violations:
             leakage_terms(chk, exe, rng, 2 if chk.tier == 'quick' else 25, tmpdir, broken)
@@ -276,6 +278,55 @@ def leakage_terms(chk, exe, rng, reps, tmpdir, broken):
             chk.violation('leakage-average', '%s: the saved leakage terms differ from the average of the samples without a signal path by %.3e' % (tag, d), lines)
             return
         chk.count('leakage_terms_agree')
+
+
+def parameter_standards(chk, exe, rng, reps):
+    """two-port standards given through parameter handles of their own (two known two-ports: eight scalar parameters, handles 3 .. 10
+    and beyond) and an isolation standard with explicit zeros, in every order of addition, the isolation standard last among them:
+    the device comes back whatever handles the parameters happen to have"""
+    from props import c02
+    for _ in range(reps):
+        for typ in calsim.TYPES:
+            sc = c02.Sc(rng, typ, 2, 2, rng.randint(1, 2), form=rng.choice(['m', 'ab'])).begin()
+            for _ in range(rng.choice([0, 0, 3, 5, 11])):
+                sc.scalar(calsim.rc(rng, 0.5) + 2.0)          # other parameters of the vnacal_t: the handles below shift
+            stds = []
+            for _ in range(3 if typ in ('T16', 'U16') else 2):
+                S2 = [[calsim.rc(rng, 0.4), calsim.rc(rng, 0.4) + 0.6], [calsim.rc(rng, 0.4) + 0.6, calsim.rc(rng, 0.4)]]
+                stds.append(('tp', S2))
+            stds += [('refl', calsim.SHORT, calsim.OPEN), ('refl', calsim.OPEN, calsim.SHORT)]
+            rng.shuffle(stds)
+            stds.append(('iso',))
+            if rng.random() < 0.3:
+                stds.insert(rng.randrange(len(stds)), ('iso',))
+            for s_ in stds:
+                if s_[0] == 'tp':
+                    S2 = s_[1]
+                    sc.line(1, 2, tuple(sc.scalar(S2[a][b]) for a in (0, 1) for b in (0, 1)), S2)
+                elif s_[0] == 'refl':
+                    sc.line(1, 2, (s_[1], 0, 0, s_[2]), [[calsim.GAMMA[s_[1]], 0], [0, calsim.GAMMA[s_[2]]]])
+                else:
+                    sc.line(1, 2, (0, 0, 0, 0), [[0, 0], [0, 0]])
+            sc.solve().add_calibration(b'c')
+            dut = sc.random_dut()
+            sc.lines += [sc.apply_line(0, dut), 'cal free 0', 'cal live']
+            out, rc, err = vlib.run_lines(exe, sc.lines, timeout=600)
+            chk.evaluations += 1
+            tag = '%s 2x2 %s, standards through %d parameter handles' % (typ, sc.form, sc.next_handle - 3)
+            if rc != 0 or len(out) != len(sc.lines):
+                chk.violation('sanitizer-params', '%s: crash / sanitizer report:\n%s' % (tag, err[-1200:]), sc.lines[:len(out) + 1])
+                return
+            bad = [(l, o) for l, o in zip(sc.lines, out) if not o.startswith('ok')]
+            if bad:
+                chk.violation('params-refused', '%s: `%s` -> %s' % (tag, bad[0][0][:80], bad[0][1][:80]), sc.lines[:sc.lines.index(bad[0][0]) + 1])
+                return
+            ok, S = calsim.parse_apply(out[-3], 2)
+            e = max(float(np.abs(S[f] - dut[f]).max()) for f in range(len(dut)))
+            if not e <= 1e-7:
+                chk.violation('apply-params', '%s: vnacal_apply does not recover the device: max |S - S_true| = %.3e' % (tag, e), sc.lines[:-2])
+                return
+            chk.count('apply_params_ok')
+            chk.distinct.add(('params', typ, sc.next_handle))
 
 
 def smooth_offgrid(chk, exe, rng, reps):
